@@ -59,13 +59,13 @@ inductive Rd where
   | blocked
   | rerr
 
-/-- `ReadTypedMsg` (+ `Slurp` for an oversized message) -/
+/-- `ReadTypedMsg`.  For an oversized message the header has been read; whether the declared
+    body could be skipped in full (`Slurp`) is the item's `full` flag, consulted by the
+    callers that skip (the command loop and `CopyReader.Read`; authentication never skips). -/
 def Sess.next (s : Sess) : Rd × Sess :=
   match s.items with
   | .msg t b :: r => (.item (.msg t b), { s with items := r, msg := b })
-  | .big t size true :: r => (.item (.big t size true), { s with items := r, msg := [] })
-  | .big _ _ false :: r =>
-      (match s.tail with | .wait => .blocked | .rerr => .rerr, { s with items := r, msg := [] })
+  | .big t size full :: r => (.item (.big t size full), { s with items := r, msg := [] })
   | [] => (match s.tail with | .wait => .blocked | .rerr => .rerr, s)
 
 /-! ### result writer (writer.go, row.go) -/
@@ -165,7 +165,11 @@ def copyRead : Nat → Sess → Option CopyRes × Sess
     match s.next with
     | (.blocked, s) => (none, s)
     | (.rerr, s) => (some (.err (.lib errRead)), s)
-    | (.item (.big _ size _), s) => (some (.err (.lib (errSizeExceeded s.L size))), s)
+    | (.item (.big _ size full), s) =>
+      if full then (some (.err (.lib (errSizeExceeded s.L size))), s)
+      else (match s.tail with
+        | .wait => (none, s)                                   -- blocked inside Slurp
+        | .rerr => (some (.err (.lib errRead)), s))
     | (.item (.msg t body), s) =>
       if t = ch 'H' ∨ t = ch 'S' then copyRead fuel s
       else if t = ch 'd' then (some (.data body), s)
@@ -643,7 +647,9 @@ def stepCommand (h : Handlers) (s : Sess) : Step :=
   match s.next with
   | (.blocked, s) => .stop s .waiting
   | (.rerr, s) => .stop s .closed
-  | (.item (.big t size _), s) => handleOversize t size s
+  | (.item (.big t size full), s) =>
+    if full then handleOversize t size s
+    else .stop s (match s.tail with | .wait => .waiting | .rerr => .closed)   -- Slurp did not complete
   | (.item (.msg t _), s) => handleCommand h t s
 
 /-- `consumeCommands` after the initial ReadyForQuery.  Every iteration consumes at least one
